@@ -570,7 +570,9 @@ def check_C08(tier, seed):
         parser_runs(rep, "sched", seed + 51, "c08b_", 6, 100)
         parser_runs(rep, "sched", seed + 52, "c08c_", 12, 60, parsers=DIMACS + ",log", specs=("Trace_Dimacs",))
         parser_runs(rep, "corrupt", seed + 53, "c08d_", 12, 300, parsers="cnf,wcnf,gcnf,log,aag,btor2")
+        parser_runs(rep, "bounds", seed + 54, "c08e_", 6, 120, parsers=DIMACS, specs=("Trace_Dimacs",))
     else:
+        parser_runs(rep, "bounds", seed + 54, "c08e_", 14, 1500, parsers=DIMACS, specs=("Trace_Dimacs",))
         parser_runs(rep, "robust", seed + 50, "c08a_", 14, 8000, specs=("Trace_Contract", "Trace_AigerRef", "Trace_Btor2Ref"))
         parser_runs(rep, "sched", seed + 51, "c08b_", 14, 1500)
         parser_runs(rep, "sched", seed + 52, "c08c_", 14, 1200, parsers=DIMACS + ",log", specs=("Trace_Dimacs",))
